@@ -551,13 +551,18 @@ class DataFormat(object):
                     "'%s' is %s but must be different from line feed and carriage return"
                     % (KEY_ITEM_DELIMITER, _compat.text_repr(self.item_delimiter))
                 )
-            try:
-                self.item_delimiter.encode(self.encoding)
-            except UnicodeError:
-                raise errors.InterfaceError(
-                    "'%s' is %s but must be a character the %s '%s' can represent"
-                    % (KEY_ITEM_DELIMITER, _compat.text_repr(self.item_delimiter), KEY_ENCODING, self.encoding)
-                )
+            for name_of_special_character in (KEY_ITEM_DELIMITER, KEY_QUOTE_CHARACTER, KEY_ESCAPE_CHARACTER):
+                special_character = self.__dict__["_" + name_of_special_character]
+                try:
+                    # NOTE: Some encodings write a character they do not have as a similar one instead of failing.
+                    is_representable = special_character.encode(self.encoding).decode(self.encoding) == special_character
+                except UnicodeError:
+                    is_representable = False
+                if not is_representable:
+                    raise errors.InterfaceError(
+                        "'%s' is %s but must be a character the %s '%s' can represent"
+                        % (name_of_special_character, _compat.text_repr(special_character), KEY_ENCODING, self.encoding)
+                    )
         self._is_valid = True
 
     def __str__(self):
